@@ -526,6 +526,10 @@ func (g *Gen) writeSet(fn *ssa.Function, blocks []*ssa.BasicBlock, seen map[*ssa
 					ct := types.Unalias(i.X.Type()).Underlying().(*types.Chan)
 					c1, _ := g.recvComp(ct)
 					comps[c1] = true
+					if i.CommaOk {
+						g.compDecl("CHD", "(Array Int Bool)")
+						comps["CHD"] = true
+					}
 				}
 			case *ssa.Send:
 				ct := types.Unalias(i.Chan.Type()).Underlying().(*types.Chan)
@@ -621,6 +625,9 @@ func (g *Gen) callWriteSet(cc *ssa.CallCommon, seen map[*ssa.Function]bool) (map
 			m := types.Unalias(cc.Args[0].Type()).Underlying().(*types.Map)
 			a, b, c, _, _ := g.mapComps(m)
 			comps[a], comps[b], comps[c] = true, true, true
+		case "close":
+			g.compDecl("CHC", "(Array Int Bool)")
+			comps["CHC"] = true
 		case "clear":
 			return nil, true
 		}
